@@ -242,11 +242,11 @@ def Wr.readFrom (w : Wr) (e : Env) (s : Src) : Option (Nat × Option WErr × Wr 
           else loop fuel { w with buf := w.buf ++ got, dirty := true } e s' (n + got.length) 0
   loop (2 * (s.bytes.length + s.chunks.length) + 8) w e s 0 0
 
-/-- Writer.Reset(dest, state, op) — note: `err` is not touched by the Go code. -/
+/-- Writer.Reset(dest, state, op): everything but the raw buffer is put back (incl. the sticky error, fix 61d761f). -/
 def Wr.reset (w : Wr) (client : Bool) (op : Nat) : Option Wr :=
   let off := reserve client w.rawLen
   if w.rawLen ≤ off then none
-  else some { w with client, op, off, buf := [], dirty := false, fseq := 0, ext := none, noFlush := false }
+  else some { w with client, op, off, buf := [], dirty := false, fseq := 0, err := false, ext := none, noFlush := false }
 
 /-- Writer.ResetOp. -/
 def Wr.resetOp (w : Wr) (op : Nat) : Wr := { w with op, buf := [], dirty := false, fseq := 0 }
